@@ -293,6 +293,22 @@ func (g *Gen) NewBlockSized(h, gen int, keys []string, sufHeight int, filler, xo
 	return b, nil
 }
 
+// BatchedRecords: the records the block hands to the block write database's batch - one per state, one
+// per in-state operation of a state, one per known operation (Batched of spec/Database.tla).
+func (b *Block) BatchedRecords() int {
+	n := len(b.Ops)
+
+	for _, st := range b.States {
+		n += 1 + len(st.Operations())
+	}
+
+	for _, st := range b.ExtraSts {
+		n += 1 + len(st.Operations())
+	}
+
+	return n
+}
+
 func (g *Gen) StateRef(st base.State) Ref {
 	if st == nil {
 		return nil
